@@ -454,9 +454,15 @@ func c47New(h *H) {
 	h.End()
 }
 
+// set by c47_fusepath.go on platforms where the fuse package builds
+var c47FusePath func(h *H)
+
 func streamC47(h *H) {
 	if h.Shard == 0 {
 		c47New(h)
+		if c47FusePath != nil {
+			c47FusePath(h)
+		}
 	}
 	n := h.N(600, 12000)
 	for i := 0; i < n; i++ {
